@@ -35,6 +35,7 @@ INVARIANT GivenVerdict
 INVARIANT Progress
 """
 NOEOL = '\\ No newline at end of file'
+WORKERS = 4   # a fixed small number: with `auto` TLC is slower on a busy machine than with 4 workers
 
 # ---- abstract line letters 1..3 -> real line contents ----
 # plain pools: no character that str.splitlines() treats as a line boundary; full comparison with the model
@@ -184,7 +185,7 @@ def validate_given(ctx, entries, name):
     if not entries:
         return 0
     gen = {'UniDiffMC': MC % ('{' + ',\n'.join(to_tla((k + 1, a, b, n, p)) for k, (a, b, n, p, _) in enumerate(entries)) + '}')}
-    r = ctx.tlc('UniDiffMC', CFG_GIVEN, gen=gen, name=name, timeout=1500, coverage=False)
+    r = ctx.tlc('UniDiffMC', CFG_GIVEN, gen=gen, name=name, timeout=1500, coverage=False, workers=WORKERS)
     if r.violation:
         raise MachineryError('given-mode run must not stop on an invariant: %s\n%s' % (r.violation, r.output[-1500:]))
     ok = {(v[1], v[2]) for v in r.printed if v[0] == 'OUT'}
@@ -234,11 +235,12 @@ def protocol_clause(ctx, a, b, n, pool, kind):
     return True
 
 
-def enumerate_and_replay(ctx, mode, lines, canon, name, entries, seen_pairs):
+def enumerate_and_replay(ctx, mode, lines, canon, name, entries, seen_pairs, impl_diffs=True, coverage=True):
     gen = {'UniDiffMC': MC % '{}'}
-    r = ctx.tlc('UniDiffMC', CFG % dict(lines=lines, mode=mode, canon='TRUE' if canon else 'FALSE'), gen=gen, name=name, timeout=3000)
+    r = ctx.tlc('UniDiffMC', CFG % dict(lines=lines, mode=mode, canon='TRUE' if canon else 'FALSE'), gen=gen, name=name, timeout=3000, coverage=coverage, workers=WORKERS)
     ctx.require_no_violation(r, name)
-    ctx.require_coverage(r, ['Header', 'Hunk', 'Line', 'NoEol', 'EndHunk', 'Finish'])
+    if coverage:
+        ctx.require_coverage(r, ['Make', 'Header', 'Hunk', 'Line', 'NoEol', 'EndHunk', 'Finish'])
     outs = [v for v in r.printed if v[0] == 'OUT']
     if not outs:
         raise MachineryError('no completed runs exported by ' + name)
@@ -246,7 +248,7 @@ def enumerate_and_replay(ctx, mode, lines, canon, name, entries, seen_pairs):
     for _, a, b, n, rev, patch, target in outs:
         h = _h((a, b, n)) + ctx.seed
         key = (a, b, n)
-        if key not in seen_pairs:
+        if impl_diffs and key not in seen_pairs:
             # pytezos' own diffs: round trip on two plain pools and one exotic pool, model-side validation of the plain ones
             seen_pairs.add(key)
             for k, pi in enumerate((h % len(PLAIN), (h // 7 + 1 + h % len(PLAIN)) % len(PLAIN))):
@@ -300,13 +302,14 @@ def run(ctx):
                        'a diff produced for context n is only required to be a valid diff; the amount of context is not compared']
     entries = {}
     seen = set()
+    # (script mode, max lines, old text up to renaming, name, also exercise make_patch on these pairs, -coverage)
     if ctx.quick:
-        plan = [('canon', 3, True, 'UniDiff_canon'), ('all', 2, False, 'UniDiff_all')]
+        plan = [('canon', 3, True, 'UniDiff_canon', True, False), ('all', 2, True, 'UniDiff_all', False, True)]
     else:
-        plan = [('canon', 4, True, 'UniDiff_canon'), ('all', 3, True, 'UniDiff_all'), ('min', 3, False, 'UniDiff_min')]
+        plan = [('canon', 4, True, 'UniDiff_canon', True, False), ('all', 3, True, 'UniDiff_all', False, True), ('min', 3, False, 'UniDiff_min', True, False)]
     tot = totp = 0
-    for mode, lines, canon, name in plan:
-        k, kp = enumerate_and_replay(ctx, mode, lines, canon, name, entries, seen)
+    for mode, lines, canon, name, impl_diffs, cov in plan:
+        k, kp = enumerate_and_replay(ctx, mode, lines, canon, name, entries, seen, impl_diffs, cov)
         tot += k
         totp += kp
     ents = [(a, b, n, p, info) for (a, b, n, p), info in entries.items()]
